@@ -99,7 +99,12 @@ class State:
         self.pc.append((term, kind))
 
     def oblige(self, goal, note, lineno=0, kind='safety'):
-        if goal == smt.TRUE or self.mute:
+        if self.mute:
+            return
+        if goal == smt.TRUE:
+            if kind in ('ensures', 'invariant', 'requires', 'raises'):
+                # discharged syntactically by the term simplifier: recorded so that it is counted
+                self.obligations.append(Obligation(goal, [], note, lineno, kind))
             return
         if goal.startswith('(and '):
             parts = smt.split_top(goal[5:-1])
